@@ -274,24 +274,31 @@ prop('C20', units=['config', 'context', 'round', 'div', 'fmt', 'roots', 'inverse
      level_text=('The build-time constants are replaced by uninterpreted symbols (rewrite R9: the include!(OUT_DIR/...) items must be present), so every '
                  'proof holds for all configurations at once: Context::default() == (cfg precision, cfg mode), RoundingMode::default() == cfg mode, '
                  'round(n) == with_scale_round(n, cfg mode), the four Div impls pass cfg precision to impl_division; sqrt() / cbrt() / inverse() are their _with_context forms at Context::default(); Display (values and references) picks the exponential / dotless / full-scale routine '
-                 'exactly by the configured leading- and trailing-zero thresholds and never switches when a precision is requested (the three routines themselves are uninterpreted); the integer zero padding of the formatter gives up exactly '
+                 'exactly by the configured leading- and trailing-zero thresholds and never switches when a precision is requested (the text each routine hands to pad_integral is specified under C16); the integer zero padding of the formatter gives up exactly '
                  'beyond cfg max integer padding (counting the requested fraction zeros and the point); a consumer hard-coding 100 or HalfEven or 1000 '
                  'cannot be proved equal to an arbitrary symbol'),
      level_note=_NOTE_COMMON + ' build.rs itself (a separate program that formats env strings) is assumed to emit what it parsed; exp is excluded (C13); sqrt/cbrt/inverse/Display default-context forms are added as their units are built.',
      technique=_TECH + '; configuration constants as uninterpreted symbols')
 
 prop('C16', units=['fmt', 'insig', 'round', 'config'], level='proof',
-     level_text=('PARTIAL. Verus proves on the real bodies: round_ascii_digits (the digit string kept, times the power of ten of the digits removed beyond the rounding '
+     level_text=('Verus proves on the real bodies: round_ascii_digits (the digit string kept, times the power of ten of the digits removed beyond the rounding '
                  'position, equals round_mag of the big-endian ASCII number at that position under the mode and sign of the rounder -- carry past nines and all-nines overflow '
                  'included), the insignificant-digit data with its lazily evaluated trailing-zero flag, default_with_sign using the configured default mode (symbolic), and '
                  'the three digit formatters of the {:.N} path, each against ONE statement -- the output has exactly N fractional digits and, read without the point, is the integer '
                  'round_mag(value, dropped digits) (or the value padded with zeros when nothing is dropped): format_ascii_digits_no_integer (rounding point left of, at, or inside the stored '
                  'digits, all-nines carry to 1.000 included), format_ascii_digits_with_integer_and_fraction (carry into the integer digits included) and '
                  'zero_right_pad_integer_ascii_digits (exponent folded into zeros exactly when within the configured padding limit, else nothing changes). The same oracle round_mag decides '
-                 'with_scale_round (C06), which is the agreement the property demands. Also proved: the Display dispatcher dynamically_format_decimal (which of the three routines runs, as a function of digit count, scale, requested precision and the thresholds). '
-                 'NOT decided: format_full_scale itself and the exponential forms (String / fmt::Formatter / write! are '
-                 'interleaved with the digit logic and cannot be brought under a Verus contract), and flag handling (delegated to std pad_integral)'),
-     level_note=_NOTE_COMMON + ' Vec helpers fill_slice(&mut v[..n]) and copy_within(..a, i) are replaced by shim helpers with assumed contracts (R6).',
+                 'with_scale_round (C06), which is the agreement the property demands. The routines that assemble the text are proved as well, each against the ARGUMENTS it hands to '
+                 'Formatter::pad_integral (sign flag = the decimal is not negative, empty prefix, numeral): format_full_scale (numeral = the output of the digit formatter chosen by scale / digit count / precision, '
+                 'followed by "e+<exponent>" exactly when the zeros of a negative scale were not written out), format_exponential_bigendian_ascii_digits and format_exponential ({:e} {:E} {:.Ne} {:.NE} '
+                 'and the Display exponent form: mantissa "d.ddd" of exactly N+1 significant digits -- all digits without precision -- which read as the value padded with zeros or as round_mag of it, '
+                 'normalised after a carry out of all nines, followed by the exponent digits+exp-1), format_dotless_exponential, the Display dispatcher and the Display / LowerExp / UpperExp impls for values and references. '
+                 'What std prints for "{}{:+}" / "e{:+}" of the exponent is an uninterpreted function of the format string and the arguments, and what pad_integral does with width / fill / alignment / '
+                 '+ / 0 flags is an uninterpreted function of its arguments: the numeral never depends on a flag because no routine reads one (only f.precision()), which is the flag half of the property; '
+                 'std\'s own padding is not verified'),
+     level_note=_NOTE_COMMON + ' Vec helpers fill_slice(&mut v[..n]) and copy_within(..a, i) are replaced by shim helpers with assumed contracts (R6); String::from_utf8 / into_bytes / insert / len on ASCII, '
+                'String::extend(repeat(c).take(n)) (R6) and write!(String, ..) (shadow macro) carry assumed contracts; BigUint::to_str_radix(10) is assumed to return the ndigits(n) ASCII digits of n; assumed bounds: a requested '
+                'precision <= 2^60 (std limits it to 65535 since Rust 1.87), strings shorter than 2^60 bytes, the three build-time thresholds <= 2^32.',
      technique=_TECH)
 
 prop('C18', units=['pow10', 'core', 'canon', 'scale', 'digits', 'prec'], level='proof',
